@@ -54,6 +54,49 @@ theorem ft_insert_id_fresh {t : FT} {es : Spec} (h : RIF t es) {pf : PF} (hv : V
     omega
 
 
+/-! ### empty keys and FasterTrie (defect C20-5) -/
+
+/-- as found: `insert` / `erase` read `pf.first[0]` of an empty key — undefined behaviour, while `Trie` stores the same key
+    (`trie_refines_spec` allows `ValidPF F []`) and `FilterMap`'s default trie type is FasterTrie -/
+theorem ft_empty_key_as_found (t : FT) : FT.insertG false t [] = none ∧ ∀ id, FT.eraseG false t id [] = none :=
+  ⟨rfl, fun _ => rfl⟩
+
+/-- with the guard of fixes/C20-5: an empty key is rejected and nothing changes, so every invariant is kept -/
+theorem ft_empty_key_guarded (t : FT) : FT.insertG true t [] = some none ∧ ∀ id, FT.eraseG true t id [] = some t :=
+  ⟨rfl, fun _ => rfl⟩
+
+theorem ft_insertG_of_ne (g : Bool) (t : FT) {pf : PF} (h : pf ≠ []) :
+    FT.insertG g t pf = (t.insert pf).map some ∧ ∀ id, FT.eraseG g t id pf = t.erase id pf := by
+  cases pf with
+  | nil => exact absurd rfl h
+  | cons kv r => exact ⟨rfl, fun _ => rfl⟩
+
+/-- one step on *any* valid key (empty or not) with the guard: no undefined behaviour; either rejected with the state (and the
+    specification) unchanged, or stored under a fresh id with the invariant kept -/
+theorem RIF_insertG {t : FT} {es : Spec} (h : RIF t es) {pf : PF} (hv : ValidPF t.F pf) :
+    (pf = [] ∧ FT.insertG true t pf = some none) ∨
+    (pf ≠ [] ∧ ∃ t', FT.insertG true t pf = some (some (t', t.counter)) ∧ RIF t' (specInsert es t.counter pf)) := by
+  cases pf with
+  | nil => exact Or.inl ⟨rfl, rfl⟩
+  | cons kv r =>
+    right
+    refine ⟨by simp, ?_⟩
+    obtain ⟨t', he, h'⟩ := RIF_insert h hv (by simp)
+    exact ⟨t', by simp only [FT.insertG, he, Option.map_some], h'⟩
+
+/-- the statement for the source as it is now (`AITB.Gen.C20.ftEmptyKeyGuard`): no undefined behaviour on any valid key iff the guard is there -/
+theorem ft_insert_as_extracted {t : FT} {es : Spec} (h : RIF t es) {pf : PF} (hv : ValidPF t.F pf)
+    (hne : AITB.Gen.C20.ftEmptyKeyGuard = false → pf ≠ []) :
+    (FT.insertG AITB.Gen.C20.ftEmptyKeyGuard t pf).isSome = true := by
+  cases pf with
+  | nil =>
+    cases hg : AITB.Gen.C20.ftEmptyKeyGuard with
+    | true => rfl
+    | false => exact absurd rfl (hne hg)
+  | cons kv r =>
+    obtain ⟨t', he, _⟩ := RIF_insert h hv (by simp)
+    simp only [FT.insertG, he, Option.map_some, Option.isSome_some]
+
 /-! ### the repaired constructor -/
 
 theorem specFilter_subset_ids (es : Spec) (q : PF) : ∀ id ∈ specFilter es q, id ∈ specIds es := by
